@@ -218,7 +218,10 @@ def _defers_below(m, path, snap, ety):
         if ety in st["defers"] and not any(rr["trig"] == "any" or rr["trig"] == ["ev", ety] for rr in st["sirows"]) \
                 and not any(rr["src"] == s and (rr["trig"] == "any" or rr["trig"] == ["ev", ety]) for rr in m["rows"]):
             return True
-        if st["sub"] is not None and _defers_below(st["sub"], path + "." + str(s), snap, ety):
+        # back / back11 forward an event into a submachine only if its (recursive) transition table mentions the event
+        # type: a submachine whose states merely defer it never receives it
+        if st["sub"] is not None and any(rr["trig"] == ["ev", ety] for _, mm in msmgen.walk(st["sub"]) for rr in mm["rows"]) \
+                and _defers_below(st["sub"], path + "." + str(s), snap, ety):
             return True
     return False
 
